@@ -38,8 +38,8 @@ PROPS = {
     },
     "C03": {
         "level": "exploration",
-        "parts": [{"engine": "sched", "profile": "c03", "weight": 1}, {"engine": "sched", "profile": "c03f", "weight": 1}],
-        "rule": "fault-free worlds as C01 (bounded liveness: Schedule returns within 60 s simulated after the last completion; run count per stage == model) plus cancelled worlds: Cancel from a separate goroutine at a seeded step with 0..n tasks in flight, a second Cancel, Cancel after return, stage-condition error (missing binary). distinct = canonical event-log hash; non-trivial = >=2 tasks in flight together or >=1 fault fired",
+        "parts": [{"engine": "sched", "profile": "c03", "weight": 2}, {"engine": "sched", "profile": "c03f", "weight": 2}, {"engine": "fault", "profile": "c12", "weight": 1}],
+        "rule": "fault-free worlds as C01 (bounded liveness: Schedule returns within 60 s simulated after the last completion; run count per stage == model) plus cancelled worlds: Cancel from a separate goroutine at a seeded step with 0..n tasks in flight, a second Cancel, Cancel after return, stage-condition error (missing binary); INTEG part: the C12 cancellation enumeration with the real TaskRunner (Schedule must return, nothing left Running, no task run twice, process survives). distinct = canonical event-log hash; non-trivial = >=2 tasks in flight together or >=1 fault fired",
         "assumptions": _SCHED_ASSUME,
     },
     "C04": {
@@ -51,6 +51,46 @@ PROPS = {
 }
 
 
+_INTEG_ASSUME = [
+    "sampling, not proof: seeded search over worlds, completion orders and fault instants",
+    "external processes are simulated at the interp.ExecHandler seam (exit status, output chunks, duration, reaction to the interrupt); the real fork/SIGINT/SIGKILL path of mvdan/sh's DefaultExecHandler is modelled, not executed",
+    "a process that reacts to the interrupt by exiting 0 by itself is outside the modelled shapes (die at once / ignore until killed after <=2 s)",
+    "interleavings are explored at park points: every exec step, stage goroutine start, Run entry, Up entry; plain memory races between park points are visible only through their effects",
+]
+
+PROPS.update({
+    "C06": {
+        "level": "exploration",
+        "parts": [{"engine": "integ", "profile": "c06", "weight": 1}],
+        "rule": "worlds: 1..3 (thorough 5) tasks with <=3 commands x <=3 variations, before/after hooks, condition, allow_failure, run directly (parallel or sequential drivers) or as stages of a seeded DAG; exit status of every exec drawn per world (0 mostly, else 1..255, command-not-found), durations seeded. Oracle: per-task exec history == reference sequencing model, no two execs of one task overlap. distinct = canonical event-log hash; non-trivial = >=2 simulated processes alive together or >=1 non-zero exit injected",
+        "assumptions": _INTEG_ASSUME,
+    },
+    "C07": {
+        "level": "exploration",
+        "parts": [{"engine": "integ", "profile": "c07", "weight": 1}],
+        "rule": "indices 0..1535: every exit status 0..255 at each of 3 command positions, with and without allow_failure, directly or as a stage; beyond: random C06-style worlds with more failures. Oracle: Task.Errored/ExitCode/Skipped, error returned by Run/Schedule and stage statuses == model. distinct = canonical event-log hash; non-trivial = >=2 processes alive together or >=1 non-zero exit",
+        "assumptions": _INTEG_ASSUME + ["CLI part (argv order, process exit status) is covered by the CLI profile once built"],
+    },
+    "C11": {
+        "level": "exploration",
+        "parts": [{"engine": "integ", "profile": "c11", "weight": 1}],
+        "rule": "producers with several commands/variations writing seeded byte strings (empty, multi-line, CRLF, unicode, quoting hazards, up to 64 KiB) in seeded chunkings, some stderr chunks interleaved; task names over a printable-ASCII alphabet (mangled names kept distinct), with/without exportAs; consumers at seeded DAG positions; {{.Output}} chaining with shell-safe words. Oracle: Task.Output() byte-exact; every exec of a direct dependant sees <NAME>_OUTPUT / exportAs == producer stdout; chained command argv == previous command's output. distinct = canonical event-log hash; non-trivial as C06",
+        "assumptions": _INTEG_ASSUME,
+    },
+    "C12": {
+        "level": "fault_enumeration",
+        "parts": [{"engine": "fault", "profile": "c12", "weight": 3}, {"engine": "sched", "profile": "c12s", "weight": 1}],
+        "rule": "for each sampled world (1..4 parallel tasks + 0..3 waiting stages, hooks, conditions, contexts, processes that die at once or ignore the interrupt until killed) and its base schedule, Cancel is injected at EVERY controller step index 0..23 (index mod 24; beyond the end of the run = after everything returned), via TaskRunner.Cancel or Scheduler.Cancel, optionally a second Cancel, or from a stage-condition error; SCHED part: same enumeration (16 positions) against the stub Runner. distinct = canonical event-log hash; all runs are non-trivial (a fault fires in each)",
+        "assumptions": _INTEG_ASSUME + ["condition and context service commands run under context.Background() by design and are exempt from 'terminates the commands that are running'"],
+    },
+    "C13": {
+        "level": "fault_enumeration",
+        "parts": [{"engine": "fault", "profile": "c13", "weight": 1}],
+        "rule": "for each sampled task (timeout 100ms..1s, <=3 commands, variations, before/after hooks, allow_failure on/off) the overrunning command is placed at EVERY position (index mod 64 -> position x shape) with shapes: finishes 1 ms before the deadline, stalls and dies on interrupt, ignores the interrupt until killed (1 ms..2 s), overruns by a margin, shell while-loop around the command, none. Fake clock: deadlines compared exactly. distinct = canonical event-log hash; all runs non-trivial",
+        "assumptions": _INTEG_ASSUME,
+    },
+})
+
 _TXT = {
     "C01": ("exploration", "Seeded exploration of (DAG, outcomes, completion order): every DAG shape on <=4 stages is covered by index, random larger ones beyond; an online monitor on the simulator's own history flags any Run entry whose dependencies have not finished. A clean batch is evidence over the sampled schedules, not a proof.",
             "trusts the simulator (controller, stub Runner) and testing/synctest; interleavings are explored at park points and scheduler passes only"),
@@ -61,6 +101,13 @@ _TXT = {
     "C04": ("exploration", "Barrier workload: the controller refuses to complete any task until all model-eligible stages are in flight, so a scheduler that serialises independent stages deadlocks in simulated time and is reported.",
             "eligibility is computed by the reference model from the simulator's history; bound is simulated time, so a slower polling pause is not an alarm"),
 }
+_TXT.update({
+    "C06": ("exploration", "The real runner, compiler, executor and shell interpreter execute generated tasks over simulated processes whose exit statuses are injected; the complete per-task exec history is compared with a reference sequencing model while sibling tasks interleave.", "reference model written from the statement; behaviour after a failing `after` hook is left unconstrained (statement silent)"),
+    "C07": ("exploration", "Every exit status at every command position is injected (systematic part) and the reported fields, returned errors and stage statuses are compared with the model; random worlds add hooks, conditions, pipelines.", "a failing before-hook must make Run return an error; Errored/ExitCode are not compared in that case (statement speaks about commands)"),
+    "C11": ("exploration", "Byte-exact comparison of captured output with what the simulated processes wrote, and of the environment every dependant's commands actually receive, across DAG positions and completion orders.", "only direct dependants are constrained; values travel through the real env/interpreter path"),
+    "C12": ("fault_enumeration", "Cancel is injected at every step index of each sampled run (plus before the run, after it, twice, via a condition error); rules: process survives, Cancel returns, run returns, running commands interrupted, nothing starts after Cancel returned, no interrupted/unstarted task reports success.", "enumeration is over controller steps of sampled worlds and schedules, not over all worlds"),
+    "C13": ("fault_enumeration", "The overrunning command is placed at every position of each sampled task under six process shapes; deadlines are compared exactly on the fake clock (start+timeout per command).", "positions x shapes are enumerated per sampled task; tasks and timeouts are sampled"),
+})
 for _k, (_lvl, _t, _n) in _TXT.items():
     PROPS[_k]["level_text"] = _t
     PROPS[_k]["level_note"] = _n
@@ -73,12 +120,7 @@ NOT_APPLICABLE = [
     {"property_id": "C16", "reason": "format equivalence of three decoders is pure"},
     {"property_id": "C17", "reason": "import closure is a pure function of a directory tree; termination is recursion on a finite structure, not a schedule"},
     {"property_id": "C18", "reason": "load-time reference validation is pure; needs malformed inputs, not schedules or faults"},
-    {"property_id": "C06", "reason": "TEMPORARY: INTEG engine under construction (claimed in DESIGN.md)"},
-    {"property_id": "C07", "reason": "TEMPORARY: INTEG engine under construction (claimed in DESIGN.md)"},
     {"property_id": "C08", "reason": "TEMPORARY: INTEG engine under construction (claimed in DESIGN.md)"},
-    {"property_id": "C11", "reason": "TEMPORARY: INTEG engine under construction (claimed in DESIGN.md)"},
-    {"property_id": "C12", "reason": "TEMPORARY: INTEG engine under construction (claimed in DESIGN.md)"},
-    {"property_id": "C13", "reason": "TEMPORARY: INTEG engine under construction (claimed in DESIGN.md)"},
     {"property_id": "C14", "reason": "TEMPORARY: INTEG engine under construction (claimed in DESIGN.md)"},
     {"property_id": "C19", "reason": "TEMPORARY: INTEG engine under construction (claimed in DESIGN.md)"},
     {"property_id": "C20", "reason": "TEMPORARY: WATCH engine under construction (claimed in DESIGN.md)"},
